@@ -219,6 +219,13 @@ type World struct {
 	stopElapsed int64
 	trace []string
 	alias      map[string]string
+	preferred  *vrt.Thread
+	stopRequested  bool
+	stopPhase      string
+	stopReturned   bool
+	stopAt         int64
+	stopReturnedAt int64
+	plan       *schedPlan
 	baseStore  *core.RecStore
 	trunk      []string
 	shadow     map[int]bitcoin.Hash32
@@ -360,8 +367,20 @@ func (w *World) settle() {
 			if len(en) == 0 {
 				break
 			}
-			w.S.Resume(en[0])
+			pick := en[0]
+			if w.preferred != nil {
+				for _, t := range en {
+					if t == w.preferred {
+						pick = t
+					}
+				}
+				w.preferred = nil
+			}
+			w.S.Resume(pick)
 			w.steps++
+			if w.plan != nil && w.plan.hit != nil {
+				w.execPlanStep(pick)
+			}
 			if w.S.Points > w.cfg.MaxPoints || w.steps > w.cfg.MaxPoints {
 				if !w.livelock {
 					w.livelock = true
